@@ -1036,7 +1036,7 @@ class SamplingMethod(DirectMethod):
                 found = True
                 opti.set_value(self.signals[p].coeff, value)
         assert found, "You attempted to set the value of a non-parameter."
-        horizon = any(isinstance(e, MX) and is_equal(parameter, e) for e in [stage._T, stage._t0])
+        horizon = any(isinstance(e, MX) and ca.depends_on(e, parameter) for e in [stage._T, stage._t0])
         in_guess = any(isinstance(e, MX) and ca.depends_on(e, parameter) for e in stage._initial.values())
         if horizon or in_guess:
             # The horizon changed (guesses that the time grid derives from it change along),
